@@ -26,7 +26,7 @@ func init() { register(c15{}) }
 
 func (c15) ID() string { return "C15" }
 func (c15) Rule() string {
-	return "the real gts binary (--no-cache) is run on generated GenBank records (20..60 residues that are pairwise distinct complement-invariant printable ids, 0..7 uniquely labelled features over ranges/points/joins/complements, linear and circular) and on the phiX174 corpus record, with locators built from points, ranges, complement(range), selectors by key and /label regexp matching 0..k features, each optionally with a modifier that stays in range (for gts rotate and single-cut gts split on circular records also positions before residue 1 or after the last residue, which wrap); commands delete [-e], insert [-e] (literal and file guests), infix [-e], split, rotate, extract [-v], each also with -F fasta. stdout is parsed back with seqio. Every third case is also run with the cache on, after the sibling invocation (-e or -v toggled; rotate for split and split for rotate) on the same input over the same cache directory, twice: it must print what the --no-cache run printed. The located regions are obtained from the same locator through the library (locator semantics are C08's); the expected output is computed by the model from the regions: delete -> residues minus the union, one record, features = image under the deletion of the maximal runs; insert/infix -> one guest copy per located region at its Head() in input coordinates, features = image under the insertions; split -> pieces concatenate to the input (circular: to the input rotated to a cut), cut set = one acceptable position per region (Head, or the lower coordinate for reverse-strand regions), fragments of each feature together cover its residues; rotate -> first located Head at index 0, features cyclically shifted; extract -> one record per distinct region shorter than the record (a single region as long as the record is don't-care), residues = model extraction, every feature of an extracted record denotes exactly the residues (distinct ids) its input feature denotes inside the region, -v -> the maximal unlocated stretches (the whole record when nothing is located). non-trivial: >=2 located regions, or regions that overlap/nest/abut/are unsorted; distinct: (command line, input record). For bare selectors the harness wrote on generated records the located regions must be those of the selected features, part for part and strand for strand; every cached twin also follows the same command asked for the other output format."
+	return "the real gts binary (--no-cache) is run on generated GenBank records (20..60 residues that are pairwise distinct complement-invariant printable ids, 0..7 uniquely labelled features over ranges/points/joins/complements, linear and circular) and on the phiX174 corpus record, with locators built from points, ranges, complement(range), selectors by key and /label regexp matching 0..k features, each optionally with a modifier that stays in range (for gts rotate and single-cut gts split on circular records also positions before residue 1 or after the last residue, which wrap); commands delete [-e], insert [-e] (literal and file guests), infix [-e], split, rotate, extract [-v], each also with -F fasta. stdout is parsed back with seqio. Every third case is also run with the cache on, after the sibling invocation (-e or -v toggled; rotate for split and split for rotate) on the same input over the same cache directory, twice: it must print what the --no-cache run printed. The located regions are obtained from the same locator through the library (locator semantics are C08's); the expected output is computed by the model from the regions: delete -> residues minus the union, one record, features = image under the deletion of the maximal runs; insert/infix -> one guest copy per located region at its Head() in input coordinates, features = image under the insertions; split -> pieces concatenate to the input (circular: to the input rotated to a cut), cut set = one acceptable position per region (Head, or the lower coordinate for reverse-strand regions), fragments of each feature together cover its residues; rotate -> first located Head at index 0, features cyclically shifted; extract -> one record per distinct region shorter than the record (a single region as long as the record is don't-care), residues = model extraction, every feature of an extracted record denotes exactly the residues (distinct ids) its input feature denotes inside the region, -v -> the maximal unlocated stretches (the whole record when nothing is located). non-trivial: >=2 located regions, or regions that overlap/nest/abut/are unsorted; distinct: (command line, input record). For bare selectors the harness wrote on generated records the located regions must be those of the selected features, part for part and strand for strand; every cached twin also follows the same command asked for the other output format. gts infix with a host file holding all records of a stream and one guest prints the concatenation of what it prints for each host alone."
 }
 func (c15) Assumptions() []string {
 	return []string{"seqio's scanner as the reader of gts output (itself the subject of C01/C07/C16/C17)", "the library's AsLocator for which regions a locator denotes (subject of C08)", "Go toolchain; harness models"}
@@ -222,6 +222,7 @@ func (x *c15run) featuresByLabel(seq gts.Sequence) map[string][]gts.Feature {
 // concatenation of the outputs for the single records.
 func (x *c15run) stream(recs []*c15rec, cmd string, flags []string, locstr string) {
 	c := x.c
+	hostRecs := recs
 	args := append([]string{cmd, locstr}, flags...)
 	switch cmd {
 	case "insert":
@@ -270,6 +271,28 @@ func (x *c15run) stream(recs []*c15rec, cmd string, flags []string, locstr strin
 	}
 	if !bytes.Equal(got.Stdout, want) {
 		c.Violate("stream:differs-from-records-alone:"+cmd, enc, clipS(string(want), 3000), clipS(string(got.Stdout), 3000))
+		return
+	}
+	if cmd == "infix" && len(hostRecs) > 1 {
+		// a host file of several records, one guest: what is printed for each
+		// host is what is printed for a host file holding that record alone.
+		guest := []byte(">g\n" + string(gen.UniqueBytes(60, 3)) + "\n")
+		var allHosts, wantH []byte
+		for _, h := range hostRecs {
+			allHosts = append(allHosts, h.text...)
+			os.WriteFile(x.env.File("shost.gb"), h.text, 0644)
+			o := x.env.Run(args, guest, nil, 60*time.Second)
+			if o.Exit != 0 || o.TimedOut {
+				return
+			}
+			wantH = append(wantH, o.Stdout...)
+		}
+		os.WriteFile(x.env.File("shost.gb"), allHosts, 0644)
+		gh := x.env.Run(args, guest, nil, 60*time.Second)
+		c.Bucket("stream:host-file-of-several-records")
+		if gh.TimedOut || gh.Exit != 0 || !bytes.Equal(gh.Stdout, wantH) {
+			c.Violate("stream:host-file-of-several-records-differs-from-hosts-alone:"+cmd, enc+fmt.Sprintf("\n  (host file holding all %d records, one guest)", len(hostRecs)), clipS(string(wantH), 3000), fmt.Sprintf("exit %d: %s", gh.Exit, clipS(string(gh.Stdout), 3000)))
+		}
 	}
 }
 
@@ -983,6 +1006,24 @@ func (x *c15run) one(rec *c15rec, cmd string, flags []string, locstr string, r *
 			}
 			return out
 		}
+		// a full-length record that is emitted is the extraction of a located
+		// full-length region (read along its strand and parts), not anything else
+		// of that length.
+		for _, b := range obs {
+			if len(b) == L && len(optional) > 0 {
+				okb := false
+				for _, w := range optional {
+					if bytes.Equal(normU(b), normU(w)) {
+						okb = true
+					}
+				}
+				c.Bucket("extract:region-as-long-as-the-record")
+				if !okb {
+					viol("full-length-record-is-not-the-located-region", fmt.Sprintf("nothing, or %q", optional[0]), fmt.Sprintf("%q", b))
+					return
+				}
+			}
+		}
 		fo := filt(obs)
 		if len(fo) != len(strict) {
 			viol("record-count", fmt.Sprintf("%d records (%d optional full-length)", len(strict), len(optional)), fmt.Sprintf("%d records", len(obs)))
@@ -1124,6 +1165,9 @@ func c15Locator(r *rand.Rand, rec *c15rec) string {
 	case 2:
 		a := r.Intn(L - 1)
 		b := a + 1 + r.Intn(L-a-1)
+		if r.Intn(6) == 0 {
+			a, b = 0, L-1 // the whole record, read on the other strand
+		}
 		x = fmt.Sprintf("complement(%d..%d)", a+1, b+1)
 	case 3:
 		if rec.corpus {
